@@ -19,7 +19,7 @@ def run(ctx, rep, pid='C01'):
         v = c.values.get('Dhuhr')
         ok = v is not None and v[0] == 'enum' and v[2] == 'Ok'
         rep.ob('R1.1', 'Dhuhr:conventional-always-Ok', ok, f'Dhuhr entry: {show(v, maxd=2)[:80]}')
-        pa = W.get(ctx)
+        pa = W.get(ctx, rep)
         bad = [w for w in pa.worlds if w.final and w.final.get('Dhuhr', ('?',))[0] != 'Ok']
         rep.ob('R1.1', 'Dhuhr:valid-in-every-world', not bad, f'{len(pa.worlds)} worlds, {len(bad)} end with an invalid Dhuhr',
                world=bad[0].describe() if bad else None)
@@ -44,3 +44,7 @@ def run(ctx, rep, pid='C01'):
     modular.check(ctx, rep, c)
     if pid == 'C01':
         julian.check(ctx, rep, 'R1.4')
+    # Dhuhr is reported only if its clock-time conversion cannot fail (R11.4, R11.7)
+    from . import shared, c11 as _c11
+    shared.include(ctx, rep, _c11.run, {'R11.4', 'R11.7'}, why='every reported hour becomes a valid clock time')
+
